@@ -94,8 +94,9 @@ enum Spec {
     /// 8 like 0 with an immediate cancel, but driven on a current-thread runtime: POST /tasks and POST cancel
     /// complete before the spawned run_task is polled for the first time (cancel before it subscribes)
     Task { variant: u64, out: Segs, err: Segs, cap: u64, plimit: u64, exit: u64, cancel_after_ms: Option<u64>, page: u64, late_ms: u64 },
-    /// a real foreground `bash` tool run
-    Bash { out: Segs, err: Segs, pmax: u64, amax: u64, exit: u64 },
+    /// a real foreground `bash` tool run; late_ms > 0: the shell exits at once and a descendant that holds
+    /// both pipes writes `err` to stderr `late_ms` later (the tool's captures run to EOF)
+    Bash { out: Segs, err: Segs, pmax: u64, amax: u64, exit: u64, late_ms: u64 },
 }
 
 fn coq_segs(s: &Segs) -> String {
@@ -140,7 +141,7 @@ fn spec_json(s: &Spec) -> Value {
         Spec::Capture { pmax, amax, content, sizes } => json!({"kind": "capture_stream", "preview_limit": pmax, "cap": amax, "content": segs_json(content), "sizes": sizes}),
         Spec::Lifecycle { codes } => json!({"kind": "lifecycle", "codes": codes}),
         Spec::Task { variant, out, err, cap, plimit, exit, cancel_after_ms, page, late_ms } => json!({"kind": "task", "variant": variant, "stdout": segs_json(out), "stderr": segs_json(err), "cap": cap, "preview_limit": plimit, "exit": exit, "cancel_after_ms": cancel_after_ms, "page": page, "late_ms": late_ms}),
-        Spec::Bash { out, err, pmax, amax, exit } => json!({"kind": "bash", "stdout": segs_json(out), "stderr": segs_json(err), "preview_limit": pmax, "cap": amax, "exit": exit}),
+        Spec::Bash { out, err, pmax, amax, exit, late_ms } => json!({"kind": "bash", "stdout": segs_json(out), "stderr": segs_json(err), "preview_limit": pmax, "cap": amax, "exit": exit, "late_ms": late_ms}),
     }
 }
 fn segs_from(v: &Value) -> Segs {
@@ -162,7 +163,7 @@ fn spec_from_json(v: &Value) -> Option<Spec> {
         "capture_stream" => Spec::Capture { pmax: g("preview_limit"), amax: g("cap"), content: segs_from(&v["content"]), sizes: u64s(&v["sizes"]) },
         "lifecycle" => Spec::Lifecycle { codes: u64s(&v["codes"]) },
         "task" => Spec::Task { variant: g("variant"), out: segs_from(&v["stdout"]), err: segs_from(&v["stderr"]), cap: g("cap"), plimit: g("preview_limit"), exit: g("exit"), cancel_after_ms: v.get("cancel_after_ms").and_then(|x| x.as_u64()), page: g("page"), late_ms: g("late_ms") },
-        "bash" => Spec::Bash { out: segs_from(&v["stdout"]), err: segs_from(&v["stderr"]), pmax: g("preview_limit"), amax: g("cap"), exit: g("exit") },
+        "bash" => Spec::Bash { out: segs_from(&v["stdout"]), err: segs_from(&v["stderr"]), pmax: g("preview_limit"), amax: g("cap"), exit: g("exit"), late_ms: g("late_ms") },
         _ => return None,
     })
 }
@@ -983,7 +984,7 @@ async fn run_task(w: &mut World, spec: &Spec) -> (Obs, Vec<u64>) {
     (o, codes)
 }
 
-async fn run_bash(w: &mut World, out: &Segs, err: &Segs, pmax: u64, amax: u64, exit: u64) -> (Obs, Vec<(Spec, Vec<u64>)>) {
+async fn run_bash(w: &mut World, out: &Segs, err: &Segs, pmax: u64, amax: u64, exit: u64, late_ms: u64) -> (Obs, Vec<(Spec, Vec<u64>)>) {
     let mut o = Obs::default();
     w.n += 1;
     let (outb, errb) = (expand(out), expand(err));
@@ -993,7 +994,12 @@ async fn run_bash(w: &mut World, out: &Segs, err: &Segs, pmax: u64, amax: u64, e
     let reg = Arc::new(rip_tools::ToolRegistry::default());
     rip_tools::register_builtin_tools(&reg, tool_cfg(&w.ws, pmax, amax));
     let h = reg.get("bash").unwrap();
-    let res = (h)(rip_tools::ToolInvocation { name: "bash".into(), args: json!({"command": format!("cat {fo}; cat {fe} >&2; exit {exit}"), "cwd": "."}), timeout_ms: None }).await;
+    let command = if late_ms > 0 {
+        format!("cat {fo}; (sleep {}.{:03}; cat {fe} >&2) & exit {exit}", late_ms / 1000, late_ms % 1000)
+    } else {
+        format!("cat {fo}; cat {fe} >&2; exit {exit}")
+    };
+    let res = (h)(rip_tools::ToolInvocation { name: "bash".into(), args: json!({"command": command, "cwd": "."}), timeout_ms: None }).await;
     if res.exit_code as u64 != exit {
         o.fail("exit_status_wrong", format!("bash exit code {} for `exit {exit}`", res.exit_code));
     }
@@ -1202,7 +1208,7 @@ fn gen_real(r: &mut Rng) -> Spec {
         let out = gen_content(r, &[pmax.min(200), amax.min(200), 20], true);
         let big = r.chance(1, 4);
         let err = if r.chance(1, 2) { gen_content(r, &[pmax.min(200), 7, 0], big) } else { vec![] };
-        Spec::Bash { out, err, pmax, amax, exit: *r.pick(&[0u64, 0, 2]) }
+        Spec::Bash { out, err, pmax, amax, exit: *r.pick(&[0u64, 0, 2]), late_ms: 0 }
     }
 }
 
@@ -1263,6 +1269,10 @@ fn main() {
         for i in 0..nlate {
             all.push(gen_late(&mut r, i));
         }
+        for i in 0..(nlate / 2) {
+            let (out, err) = (vec![(gen_text(&mut r, 10), 1)], vec![(gen_text(&mut r, 8), 1)]);
+            all.push(Spec::Bash { out, err, pmax: *r.pick(&[4u64, 64, 8192]), amax: *r.pick(&[5u64, 100, 1 << 20]), exit: *r.pick(&[0u64, 2]), late_ms: [1400u64, 2400, 1900, 2900][(i % 4) as usize] });
+        }
         for _ in 0..(nlate / 4) {
             let out = vec![(gen_text(&mut r, 12), 1)];
             all.push(Spec::Task { variant: 8, out, err: vec![], cap: 1 << 20, plimit: 64, exit: 0, cancel_after_ms: Some(0), page: 0, late_ms: 0 });
@@ -1272,12 +1282,21 @@ fn main() {
     // each in a world of its own (tasks of one world share the workspace lock), and run concurrently
     // with the rest of the cases; the loop below collects them where they stand in the case list
     let mut started: std::collections::HashMap<usize, tokio::task::JoinHandle<(Obs, Vec<u64>)>> = Default::default();
+    let mut started_bash: std::collections::HashMap<usize, tokio::task::JoinHandle<(Obs, Vec<(Spec, Vec<u64>)>)>> = Default::default();
     for (i, s) in all.iter().enumerate() {
         if let Spec::Task { variant: 5..=7, .. } = s {
             let sp = s.clone();
             started.insert(i, rt.spawn(async move {
                 let mut wd = World::new();
                 run_task(&mut wd, &sp).await
+            }));
+        }
+        if let Spec::Bash { out, err, pmax, amax, exit, late_ms: 1.. } = s {
+            let Spec::Bash { late_ms, .. } = s else { unreachable!() };
+            let (out, err, pmax, amax, exit, late_ms) = (out.clone(), err.clone(), *pmax, *amax, *exit, *late_ms);
+            started_bash.insert(i, rt.spawn(async move {
+                let mut wd = World::new();
+                run_bash(&mut wd, &out, &err, pmax, amax, exit, late_ms).await
             }));
         }
     }
@@ -1332,13 +1351,17 @@ fn main() {
                     }))
                 }
             }
-            Spec::Bash { out, err, pmax, amax, exit } => {
+            Spec::Bash { late_ms: 1.., .. } if started_bash.contains_key(&i) => {
+                res.bump("late_writer=bash");
+                rt.block_on(started_bash.remove(&i).unwrap()).map_err(|e| Box::new(e.to_string()) as Box<dyn std::any::Any + Send>)
+            }
+            Spec::Bash { out, err, pmax, amax, exit, late_ms } => {
                 if world.is_none() {
                     let _g = rt.enter();
                     world = Some(World::new());
                 }
                 let wd = world.as_mut().unwrap();
-                std::panic::catch_unwind(std::panic::AssertUnwindSafe(|| rt.block_on(run_bash(wd, out, err, *pmax, *amax, *exit))))
+                std::panic::catch_unwind(std::panic::AssertUnwindSafe(|| rt.block_on(run_bash(wd, out, err, *pmax, *amax, *exit, *late_ms))))
             }
             _ => std::panic::catch_unwind(std::panic::AssertUnwindSafe(|| {
                 let o = rt.block_on(run_spec(&s2));
